@@ -142,7 +142,9 @@ func genContent(ch *core.Chooser, hosts []string, bufHint int, maxLines int) str
 			}
 		case c == 16:
 			// lines whose KIND is easy to get wrong
-			line = []string{hosts[0] + " #c", hosts[0] + " # c", "1.2.3.4", "::1 localhost # x", hosts[0] + "##", "#@#.x", "$$script", "||", "|", "*$image", "0.0.0.0 " + hosts[0] + " ## phishing", hosts[0] + "#comment", "! ||" + hosts[0] + "^", "#||" + hosts[0] + "^", "# " + hosts[0], "\r"}[ch.Intn("content.ambig", 16)]
+			line = []string{hosts[0] + " #c", hosts[0] + " # c", "1.2.3.4", "::1 localhost # x", hosts[0] + "##", "#@#.x", "$$script", "||", "|", "*$image", "0.0.0.0 " + hosts[0] + " ## phishing", hosts[0] + "#comment", "! ||" + hosts[0] + "^", "#||" + hosts[0] + "^", "# " + hosts[0], "\r",
+				"0.0.0.0 " + hosts[0] + " # also see " + hosts[0] + "##.banner", "||" + hosts[0] + "/page#top##x", "/ads\\.js$/$$script", "||" + hosts[0] + "^$important#@#x",
+				"||" + hosts[0] + "/a#b#?#c", hosts[0] + " #%#x"}[ch.Intn("content.ambig", 22)]
 		default:
 			line = workload.GenRule(ch, workload.KCosmetic, hosts, nil)
 		}
@@ -226,6 +228,23 @@ func RunC11(ch *core.Chooser, env *Env) *Outcome {
 		b.WriteString(lists[0].Text)
 		lists[0].Text = b.String()
 		out.Probes["runs_with_offsets_beyond_1MiB"]++
+	}
+	// sometimes two lists (distinct ids) are file lists over ONE path
+	if len(lists) < 4 && ch.Intn("c11.twin", 6) == 5 {
+		tw := lists[0]
+		tw.ID = listIDPool[(indexOfInt(listIDPool, lists[0].ID)+5)%len(listIDPool)]
+		for dup := true; dup; {
+			dup = false
+			for _, l := range lists {
+				if l.ID == tw.ID {
+					dup = true
+					tw.ID = listIDPool[(indexOfInt(listIDPool, tw.ID)+1)%len(listIDPool)]
+				}
+			}
+		}
+		lists[0].ShareKey, tw.ShareKey = "twin", "twin"
+		lists = append(lists, tw)
+		out.Probes["storages_with_two_lists_on_one_file"]++
 	}
 	fail := func(class, detail string) *Outcome {
 		out.Violation = &Violation{Class: class, Detail: detail}
@@ -335,6 +354,11 @@ func RunC11(ch *core.Chooser, env *Env) *Outcome {
 		}
 	}
 
+	abandonAfter := -1
+	if ch.Intn("c11.abandon", 3) == 2 {
+		abandonAfter = ch.Intn("c11.abandonat", 4)
+		out.Probes["abandoned_scans"]++
+	}
 	opKinds := []int{workload.OpDNS, workload.OpDNS, workload.OpWeb, workload.OpMatchAll, workload.OpMatch, workload.OpCosmetic}
 	var reqs []workload.Op
 	for i := 0; i < 8; i++ {
@@ -358,6 +382,12 @@ func RunC11(ch *core.Chooser, env *Env) *Outcome {
 			// storage scan == reference, with reference-computed indices;
 			// scanned twice: engines scan a storage several times, and a
 			// file-backed list has to rewind
+			// a scan that is abandoned half-way must not disturb the next
+			if abandonAfter >= 0 {
+				ab := b.Storage.NewRuleStorageScanner()
+				for j := 0; j <= abandonAfter && ab.Scan(); j++ {
+				}
+			}
 			for scanNo := 0; scanNo < 2 && v == nil; scanNo++ {
 				sc := b.Storage.NewRuleStorageScanner()
 				k := 0
